@@ -483,6 +483,11 @@ def failures(res, prop=None):
             continue
         if prop is None:
             out.append(ob)
+        elif prop in res.spec.get("assumed_by", []):
+            # another harness of `prop` assumes this function's whole contract
+            # (replaced by hand): every obligation of this harness is a premise
+            # of that proof
+            out.append(ob)
         elif lab:
             owners = set(props_of(lab))
             # an obligation labelled only with properties this harness does not
@@ -513,20 +518,54 @@ def failures(res, prop=None):
 # replay files
 
 
+_NONDET_LINES = {}
+
+
+def nondet_line(path, line):
+    """`nondet_T` if source line `path:line` is a plain `lhs = nondet_T();` (CBMC
+    sometimes assigns such a call's value directly, without a return_value_
+    temporary that would name the function in the trace)."""
+    if path not in _NONDET_LINES:
+        tab = {}
+        try:
+            for i, text in enumerate(open(path, errors="replace"), 1):
+                m = re.search(r"=\s*(nondet_[a-z]+)\(\)\s*;", text)
+                if m and len(re.findall(r"nondet_[a-z]+\(", text)) == 1:
+                    tab[i] = m.group(1)
+        except OSError:
+            pass
+        _NONDET_LINES[path] = tab
+    return _NONDET_LINES[path].get(line)
+
+
 def extract_script(trace):
     """Ordered nondeterministic choices of a counterexample trace."""
     script = []
+    pending = None  # location whose value was just taken from a return_value_ step
     for s in trace:
         if s.get("stepType") != "assignment" or s.get("hidden"):
             continue
         lhs = s.get("lhs", "")
+        loc = s.get("sourceLocation", {})
+        at = "%s:%s" % (loc.get("function"), loc.get("line"))
+        v = s.get("value", {})
         m = re.match(r"return_value_(nondet_\w+?)(\$\d+)?$", lhs)
         if m:
-            v = s.get("value", {})
-            script.append({"fn": m.group(1), "value": v.get("data"),
-                           "bin": v.get("binary"),
-                           "at": "%s:%s" % (s.get("sourceLocation", {}).get("function"),
-                                            s.get("sourceLocation", {}).get("line"))})
+            script.append({"fn": m.group(1), "value": v.get("data"), "bin": v.get("binary"), "at": at})
+            pending = at
+            continue
+        if lhs.startswith("return_value_") or v.get("data") is None:
+            continue
+        try:
+            fn = nondet_line(loc.get("file", ""), int(loc.get("line", 0)))
+        except ValueError:
+            fn = None
+        if fn is None:
+            continue
+        if pending == at:
+            pending = None  # the copy of the temporary into the left-hand side
+            continue
+        script.append({"fn": fn, "value": v.get("data"), "bin": v.get("binary"), "at": at})
     return script
 
 
